@@ -419,6 +419,16 @@ class CSSImportRule(cssrule.CSSRule):
                 if 'name' == typ:
                     self._seq[i] = (name, typ, item.line, item.col)
                     break
+            else:
+                if name is not None:
+                    # the rule had no name yet: it follows href and media
+                    pos = 0
+                    for i, item in enumerate(self.seq):
+                        if item.type in ('href', 'media'):
+                            pos = i + 1
+                    self._seq._readonly = False
+                    self._seq.insert(pos, name, 'name')
+                    self._seq._readonly = True
 
             # set title of imported sheet
             if self.styleSheet:
